@@ -29,60 +29,11 @@ theorem convertTo_err {β : Type} [NumOps β] (tbl : Table β) (q : Quantity β)
 
 /-- the physical value of a sum is the sum of the physical values -/
 theorem add_phys (tbl : Table α) (hp : PosTbl tbl) (a b r : Quantity α) (h : qadd tbl a b = .ok r) :
-    phys tbl r = phys tbl a + phys tbl b := by
-  unfold qadd at h
-  split at h
-  · rename_i hz; cases h
-    have := (isZero_iff a).mp hz
-    unfold phys; rw [this]; grind
-  · split at h
-    · rename_i hz; cases h
-      have := (isZero_iff b).mp hz
-      unfold phys; rw [this]; grind
-    · split at h
-      · rename_i he; cases h
-        unfold phys
-        simp only [add_eq]
-        rw [prodW_of_unitEq tbl hp _ _ he]; grind
-      · simp only at h
-        split at h
-        · rename_i a' b' ha hb
-          cases h
-          have e1 := convert_phys' tbl hp a a' _ ha
-          have e2 := convert_phys' tbl hp b b' _ hb
-          unfold phys at *
-          simp only [add_eq]
-          grind
-        · cases h
-        · cases h
+    phys tbl r = phys tbl a + phys tbl b := add_phys_lem tbl hp a b r h
 
+/-- the physical value of a difference is the difference of the physical values -/
 theorem sub_phys (tbl : Table α) (hp : PosTbl tbl) (a b r : Quantity α) (h : qsub tbl a b = .ok r) :
-    phys tbl r = phys tbl a - phys tbl b := by
-  unfold qsub at h
-  split at h
-  · rename_i hz; cases h
-    have := (isZero_iff a).mp hz
-    unfold phys Quantity.neg; rw [this]; simp only [neg_eq]; grind
-  · split at h
-    · rename_i hz; cases h
-      have := (isZero_iff b).mp hz
-      unfold phys; rw [this]; grind
-    · split at h
-      · rename_i he; cases h
-        unfold phys
-        simp only [sub_eq]
-        rw [prodW_of_unitEq tbl hp _ _ he]; grind
-      · simp only at h
-        split at h
-        · rename_i a' b' ha hb
-          cases h
-          have e1 := convert_phys' tbl hp a a' _ ha
-          have e2 := convert_phys' tbl hp b b' _ hb
-          unfold phys at *
-          simp only [sub_eq]
-          grind
-        · cases h
-        · cases h
+    phys tbl r = phys tbl a - phys tbl b := sub_phys_lem tbl hp a b r h
 
 /-- `a + b` and `b + a` denote the same physical quantity -/
 theorem add_comm_phys (tbl : Table α) (hp : PosTbl tbl) (a b r₁ r₂ : Quantity α)
